@@ -63,8 +63,9 @@ def lookup_builtin(name):
 
 
 EXTERNAL_CLASSES = {
+    "threading.Thread": "threading.Thread", "threading.RLock": "threading.RLock",
     "enum.Enum": "Enum", "abc.ABC": "object", "queue.Empty": "queue.Empty",
-    "sqlite3.OperationalError": "sqlite3.OperationalError", "threading.Event": "threading.Event",
+    "sqlite3.OperationalError": "sqlite3.OperationalError",
     "typing.NamedTuple": "object", "datetime.datetime": "datetime.datetime",
 }
 
@@ -473,8 +474,23 @@ def dict_set(eng, st, d, k, val):
     st.touch(o)
 
 
+def _open_probe(eng, st, o, k):
+    """open (partially known) dict: a key that matches no known item may still be bound in the unknown rest;
+    materialise that possibility as a new item so that later accesses of the same key are consistent"""
+    if not o.meta.get("open"):
+        return
+    nomatch = znot(zor(*[P.eq(st, key, k) for key, _, _ in o.items]))
+    if z3.is_false(nomatch):
+        return
+    pres = z3.Bool(P.fresh_name("absdict.has"))
+    val = o.meta["gen"](eng, st, k)
+    o.items.append([k, val, zand(nomatch, pres)])
+    st.touch(o)
+
+
 def dict_get(eng, st, d, k, default, raise_missing=False):
     o = st.obj(d)
+    _open_probe(eng, st, o, k)
     found = []
     for key, v0, pres in o.items:
         g = zand(pres, P.eq(st, key, k))
@@ -492,6 +508,7 @@ def dict_get(eng, st, d, k, default, raise_missing=False):
 
 def dict_pop(eng, st, d, k, default, raise_missing=False):
     o = st.obj(d)
+    _open_probe(eng, st, o, k)
     found = []
     new_items = []
     for key, v0, pres in o.items:
@@ -505,6 +522,8 @@ def dict_pop(eng, st, d, k, default, raise_missing=False):
     missing = znot(zor(*[g for g, _ in found]))
     if raise_missing:
         st.pend(missing, "KeyError", "key not found")
+    if o.meta.get("open"):
+        new_items.append([k, NONE, BF])     # tombstone: the key is known to be absent from now on
     o.items = new_items
     st.touch(o)
     if raise_missing:
@@ -517,6 +536,7 @@ def dict_pop(eng, st, d, k, default, raise_missing=False):
 
 def dict_contains(eng, st, d, k):
     o = st.obj(d)
+    _open_probe(eng, st, o, k)
     return zor(*[zand(pres, P.eq(st, key, k)) for key, _, pres in o.items])
 
 
@@ -1708,8 +1728,10 @@ def _time(eng, st, recv, args, kwargs):
     h = eng.handlers.get("clock")
     if h is not None:
         return h(eng, st, recv, args, kwargs)
-    st.note("time.time(): fresh unconstrained real on every call (no monotonicity assumed)")
-    return eng.ok(st, P.fresh("real", "now"))
+    st.note("time.time(): fresh positive real on every call (no monotonicity assumed)")
+    v = P.fresh("real", "now")
+    st.axiom(v.t > 0)
+    return eng.ok(st, v)
 
 
 BUILTIN_FUNCS["time.monotonic"] = _time
@@ -1809,3 +1831,10 @@ def _getlevelname(eng, st, recv, args, kwargs):
 
 
 BUILTIN_FUNCS["logging.addLevelName"] = _noop
+
+
+@bf("threading.Event")
+def _threading_event(eng, st, recv, args, kwargs):
+    noop = lambda e, s, r, a, k: e.ok(s, NONE)
+    return eng.ok(st, st.alloc(HObj("opaque", None, meta={"tag": "event", "methods": {
+        "set": noop, "clear": noop, "wait": lambda e, s, r, a, k: e.ok(s, P.fresh("bool", "event.wait"))}})))
